@@ -338,7 +338,7 @@ func (e *handlerStore[T]) off(handler ...T) {
 		for _, h := range slice {
 			matched := false
 			for _, _h := range handler {
-				if h == _h {
+				if sameHandler(h, _h) {
 					matched = true
 					break
 				}
@@ -352,6 +352,24 @@ func (e *handlerStore[T]) off(handler ...T) {
 
 	e.funcs = remove(e.funcs)
 	e.funcsOnce = remove(e.funcsOnce)
+}
+
+// The handlers are stored as pointers to function values. The `Off...` methods take function
+// values, so the pointer given to `off` is never the pointer that was stored (it points to a copy).
+// Compare the functions themselves, as `eventHandlerStore.off` does.
+func sameHandler[T comparable](a, b T) bool {
+	if a == b {
+		return true
+	}
+	ra, rb := reflect.ValueOf(a), reflect.ValueOf(b)
+	if ra.Kind() != reflect.Ptr || rb.Kind() != reflect.Ptr || ra.IsNil() || rb.IsNil() {
+		return false
+	}
+	ra, rb = ra.Elem(), rb.Elem()
+	if ra.Kind() != reflect.Func || rb.Kind() != reflect.Func || ra.IsNil() || rb.IsNil() {
+		return false
+	}
+	return ra.Pointer() == rb.Pointer()
 }
 
 func (e *handlerStore[T]) offAll() {
